@@ -6,6 +6,7 @@ package props
 // configurations, fault histories and application scripts.
 
 import (
+	"fmt"
 	kcp "github.com/xtaci/kcp-go/v5"
 	"testing"
 	"time"
@@ -216,6 +217,69 @@ func TestC01FreeRun(t *testing.T) {
 			dd["datagrams"] = fr.Sent.Load()
 			dd["dropped"] = fr.Dropped.Load()
 			rec.Sample(dd)
+		}
+	})
+}
+
+// TestC01StreamMtuRaise: stream mode merges new bytes into the last queued
+// segment. Which segment that is, and how much room it has, depends on the mss
+// in force when it was cut: after the application RAISES the MTU in
+// mid-connection, older queued segments (cut for the smaller mss) have room
+// again while the tail may be exactly full. The script builds exactly that -
+// a backlog cut for a small MTU, SetMtu to a larger one, a write that fills the
+// tail to the new mss, then more writes - under the C01 content oracle, with a
+// lossy network on top.
+func TestC01StreamMtuRaise(t *testing.T) {
+	rec := hx.NewRecorder(t)
+	rapid.Check(t, func(rt *rapid.T) {
+		cfg := sim.DrawCoreCfg(rt)
+		cfg.Stream = true
+		mtu1 := rapid.IntRange(60, 700).Draw(rt, "mtu1")
+		mtu2 := rapid.IntRange(mtu1+30, 1400).Draw(rt, "mtu2")
+		cfg.EP[0].MTU = mtu1
+		cfg.EP[0].SndWnd = rapid.SampledFrom([]int{1, 2, 4}).Draw(rt, "sndwnd") // a backlog stays queued
+		mss1, mss2 := mtu1-24, mtu2-24
+		full := rapid.IntRange(1, 5).Draw(rt, "fullSegments")
+		r := rapid.IntRange(1, mss1-1).Draw(rt, "tail")
+		var app [2]sim.AppScript
+		app[0].Backlog = 1 << 20 // the writer does not wait for the window: everything is queued at once
+		app[0].Writes = []int{full*mss1 + r}
+		app[0].GapMs = []int32{0}
+		// after the raise (at 1 ms): fill the tail exactly, perhaps some full segments more
+		app[0].Writes = append(app[0].Writes, (mss2-r)+rapid.IntRange(0, 2).Draw(rt, "moreFull")*mss2)
+		app[0].GapMs = append(app[0].GapMs, 2)
+		for i, n := 0, rapid.IntRange(1, 6).Draw(rt, "later"); i < n; i++ {
+			app[0].Writes = append(app[0].Writes, rapid.SampledFrom([]int{1, 7, 100, mss1, mss2 - 1, mss2, mss2 + 1}).Draw(rt, "laterSize"))
+			app[0].GapMs = append(app[0].GapMs, int32(rapid.SampledFrom([]int{0, 0, 1, 30}).Draw(rt, "laterGap")))
+		}
+		app[0].ReadBufs = sim.DrawReadBufs(rt, "rb.", mss2)
+		fs := sim.DrawFateScript(rt, sim.FateOpts{MaxExplicit: 8, MaxRegimes: 2, MaxRegLen: 60, MaxDelay: 300, MaxLossPm: 200})
+		if fs.BaseDelay[0] < 20 {
+			fs.BaseDelay[0], fs.BaseDelay[1] = 20, 20 // no acknowledgement is back before the writes are done
+		}
+		raised := false
+		var st sim.CoreStats
+		rapid.SyncTest(rt, func(rt *rapid.T) {
+			s := sim.NewCoreSim(cfg, fs, app)
+			s.Ops = []sim.TimedOp{{At: 1, Name: fmt.Sprintf("SetMtu(%d) at the writer", mtu2), Fn: func(s *sim.CoreSim) error {
+				raised = s.K[0].SetMtu(mtu2) == 0
+				return nil
+			}}}
+			err := s.Run(fs.EndTime() + 900_000)
+			st = s.Stats
+			if err != nil {
+				rt.Fatalf("C01 (raw core, stream mode, MTU raised from %d to %d with %d+1 segments queued): %v\ncase: %+v", mtu1, mtu2, full, err, describeCore(cfg, fs, app))
+			}
+		})
+		cl := coreClasses(&st)
+		if raised {
+			cl = append(cl, "mtu_raised_with_a_backlog_queued")
+		}
+		rec.Case(hx.Hash64(cfg, fs.Describe(), app, mtu1, mtu2), raised && st.Done, cl...)
+		if rec.WantSample() {
+			d := describeCore(cfg, fs, app)
+			d["mtu_raise"] = []int{mtu1, mtu2}
+			rec.Sample(d)
 		}
 	})
 }
